@@ -76,6 +76,8 @@ pub struct ObjectReceiver {
     groups: Vec<String>,
     last_timestamp: SystemTime,
     pub e_tag: Option<String>,
+    /// Close object flag has been received before the FDT
+    close_object_received: bool,
 }
 
 impl ObjectReceiver {
@@ -128,6 +130,7 @@ impl ObjectReceiver {
             groups: Vec::new(),
             last_timestamp: now,
             e_tag: None,
+            close_object_received: false,
         }
     }
 
@@ -171,7 +174,11 @@ impl ObjectReceiver {
     fn push_to_block(&mut self, pkt: &alc::AlcPkt, now: std::time::SystemTime) -> Result<()> {
         self.push_to_block2(pkt, now)?;
         if pkt.lct.close_object {
-            if self.state == State::Receiving {
+            if self.fdt_instance_id.is_none() {
+                // The FDT is not received yet, the symbols already received are kept,
+                // the object is completed or interrupted when the FDT is attached
+                self.close_object_received = true;
+            } else if self.state == State::Receiving {
                 self.error("No more packet for this object", now, true);
             }
         }
@@ -395,6 +402,20 @@ impl ObjectReceiver {
         self.write_blocks(0, now)
             .unwrap_or_else(|_| self.error("Fail to write blocks to storage", now, false));
         self.push_from_cache(now);
+
+        if self.close_object_received && self.state == State::Receiving {
+            let is_opened = self
+                .object_writer
+                .as_ref()
+                .map(|writer| writer.state == ObjectWriterSessionState::Opened)
+                .unwrap_or(false);
+            if self.transfer_length == Some(0) && is_opened {
+                // The packet of an empty object has been received before the FDT
+                self.complete(now);
+            } else {
+                self.error("No more packet for this object", now, true);
+            }
+        }
         true
     }
 
